@@ -128,6 +128,26 @@ def check_ms(t):
         s2 = utils.serialize_date(d2)
         if not s < s2:
             out.append(('serials of consecutive milliseconds not increasing', 's(t) < s(t+1ms)', (s, s2)))
+    # the comparison operators see that serial: date-times one millisecond, one second, one minute apart are told apart
+    import hotxlfp
+    p = hotxlfp.Parser()
+    p.set_variable('ta', d)
+    p.set_variable('tc', datetime.datetime(*t))
+    for k, step in enumerate((datetime.timedelta(milliseconds=1), datetime.timedelta(seconds=1), datetime.timedelta(seconds=61), datetime.timedelta(hours=1))):
+        try:
+            later = d + step
+        except OverflowError:
+            continue
+        if later.year > 9999:
+            continue
+        p.set_variable('tb', later)
+        got = tuple(p.parse(f)['result'] for f in ('ta<tb', 'ta=tb', 'ta>tb', 'ta<=tb', 'ta>=tb', 'ta<>tb', 'tb>ta', 'tb=ta'))
+        if got != (True, False, False, True, False, True, True, False):
+            out.append(('comparison operators on date-times %s apart (< = > <= >= <>, then reversed > =)' % step, (True, False, False, True, False, True, True, False), got))
+            break
+    got = tuple(p.parse(f)['result'] for f in ('ta=tc', 'ta<tc', 'ta>=tc', 'ta=N(ta)', 'N(ta)<=ta'))
+    if got != (True, False, True, True, True):
+        out.append(('comparison operators on equal date-times / a date-time and its own serial', (True, False, True, True, True), got))
     if d >= datetime.datetime(1900, 3, 1):
         exact = Fraction(d.toordinal() - D0) + Fraction((d - datetime.datetime.fromordinal(d.toordinal())) // datetime.timedelta(microseconds=1), DAY_US)
         if abs(Fraction(s) - exact) > Fraction(1, 2 * 86400000):
